@@ -579,6 +579,9 @@ def rule_r11(chk, facts):
 
 def run(chk, facts, info):
     rule_r1(chk, facts)
+    from . import round8_small
+    round8_small.c03_r35(chk, facts)
+    round8_small.c03_r36(chk, facts)
     rule_r2(chk, facts)
     rule_r7(chk, facts)
     from . import c03_bounds, c08
